@@ -405,6 +405,240 @@ theorem C13_scanline_pnm {α} (f : PixFmt α) (data : Bytes) (info : PnmInfo) (p
   rw [List.getElem?_map, List.getElem?_range hp]
   simp only [Option.map_some, slice_decRow]
 
+/-! ### the scanline iterator under any skip / dereference pattern -/
+
+/-- state invariant of scanline_read_iterator: the two flags move together; with the flags set the stream is ready for row `pos`,
+    with the flags cleared the buffer holds row `pos` and the stream is ready for row `pos + 1` -/
+private def ItGood {σ ρ} (row : Nat → ρ) (Inv : Nat → σ → Prop) (s : ItState σ ρ) : Prop :=
+  (s.readF = true ∧ s.skipF = true ∧ Inv s.pos s.st) ∨ (s.readF = false ∧ s.skipF = false ∧ s.buf = row s.pos ∧ Inv (s.pos + 1) s.st)
+
+private theorem itRun_good {σ ρ} (r : ScanReader σ ρ) (row : Nat → ρ) (Inv : Nat → σ → Prop)
+    (hread : ∀ pos s, Inv pos s → (r.read pos s).1 = row pos ∧ Inv (pos + 1) (r.read pos s).2)
+    (hskip : ∀ pos s, Inv pos s → Inv (pos + 1) (r.skip pos s))
+    (ops : List ItOp) : ∀ (s : ItState σ ρ), ItGood row Inv s →
+      itRun r s ops = (derefPositions s.pos ops).map (fun p => (p, row p)) := by
+  induction ops with
+  | nil => intro s _; rfl
+  | cons o os ih =>
+    intro s hg
+    cases o with
+    | incr =>
+      simp only [itRun, ItState.step, derefPositions]
+      apply ih
+      rcases hg with ⟨_, h2, h3⟩ | ⟨_, h2, _, h4⟩
+      · left; simp only [h2, if_true]; exact ⟨trivial, trivial, hskip _ _ h3⟩
+      · left; simp only [h2, Bool.false_eq_true, if_false]; exact ⟨trivial, trivial, h4⟩
+    | deref =>
+      simp only [itRun, ItState.step, derefPositions, List.map_cons]
+      rcases hg with ⟨h1, _, h3⟩ | ⟨h1, _, h3, h4⟩
+      · simp only [h1, if_true]
+        obtain ⟨e1, e2⟩ := hread _ _ h3
+        rw [e1]; congr 1
+        apply ih
+        right; exact ⟨rfl, rfl, rfl, e2⟩
+      · simp only [h1, Bool.false_eq_true, if_false]
+        rw [h3]; congr 1
+        apply ih
+        right; exact ⟨rfl, rfl, rfl, h4⟩
+
+/-- ANY sequence of `*it` / `++it` on the scanline iterator (rows skipped without being dereferenced, rows dereferenced several
+    times, any length) hands out, at every dereference, exactly row `pos` of the full decode -- for every reader whose `read` at a
+    stream state that is ready for row `pos` yields that row and leaves the stream ready for `pos + 1`, and whose `skip` advances
+    the stream by exactly one row -/
+theorem C13_skip_pattern_generic {σ ρ} (r : ScanReader σ ρ) (row : Nat → ρ) (Inv : Nat → σ → Prop)
+    (hread : ∀ pos s, Inv pos s → (r.read pos s).1 = row pos ∧ Inv (pos + 1) (r.read pos s).2)
+    (hskip : ∀ pos s, Inv pos s → Inv (pos + 1) (r.skip pos s))
+    (s0 : σ) (h0 : Inv 0 s0) (b0 : ρ) (ops : List ItOp) :
+    itRun r (ItState.init b0 s0) ops = (derefPositions 0 ops).map (fun p => (p, row p)) :=
+  itRun_good r row Inv hread hskip ops (ItState.init b0 s0) (Or.inl ⟨rfl, rfl, h0⟩)
+
+/-- the iterator's position only counts the increments (compared with `end()` = height) -/
+theorem C13_skip_pattern_pos {σ ρ} (r : ScanReader σ ρ) (ops : List ItOp) (s : ItState σ ρ) :
+    itPos r s ops = s.pos + (ops.filter (· = ItOp.incr)).length := by
+  induction ops generalizing s with
+  | nil => simp [itPos]
+  | cons o os ih =>
+    cases o <;> simp [itPos, ih, ItState.step] <;> omega
+
+/-- pnm binary rows (P5 / P6): any pattern yields the rows `pnmScanRow` (which are read_image's rows: `C13_scanline_pnm`) -/
+theorem C13_skip_pattern_pnm_bin (data : Bytes) (info : PnmInfo) (ops : List ItOp) :
+    itRun (pnmBinScanReader (pnmScanline info.type info.width)) (ItState.init [] data) ops
+      = (derefPositions 0 ops).map (fun p => (p, pnmScanRow data info p)) := by
+  apply C13_skip_pattern_generic _ _ (fun pos s => s = data.drop (pos * pnmScanline info.type info.width))
+  · intro pos s hs
+    subst hs
+    refine ⟨by simp [pnmBinScanReader, pnmScanRow, readAt], ?_⟩
+    simp only [pnmBinScanReader, List.drop_drop, Nat.add_mul, Nat.one_mul]
+  · intro pos s hs
+    subst hs
+    simp only [pnmBinScanReader, List.drop_drop, Nat.add_mul, Nat.one_mul]
+  · simp
+
+/-- bmp (24 / 32 bit): `read` seeks to the row, so any pattern yields the rows `bmpScanRow` (read_image's rows: `C13_scanline_bmp`) -/
+theorem C13_skip_pattern_bmp (file : Bytes) (info : BmpInfo) (p0 : Nat) (ops : List ItOp) :
+    itRun (bmpScanReader file info) (ItState.init [] p0) ops = (derefPositions 0 ops).map (fun p => (p, bmpScanRow file info p)) :=
+  C13_skip_pattern_generic _ _ (fun _ _ => True) (fun _ _ _ => ⟨rfl, trivial⟩) (fun _ _ _ => trivial) p0 trivial [] ops
+
+/-- targa (raw, bottom-up): `skip` seeks forward, `read` seeks to the row: any pattern yields the rows `tgaScanRow` (`C13_scanline_targa`) -/
+theorem C13_skip_pattern_targa (file : Bytes) (info : TgaInfo) (p0 : Nat) (ops : List ItOp) :
+    itRun (tgaScanReader file info) (ItState.init [] p0) ops = (derefPositions 0 ops).map (fun p => (p, tgaScanRow file info p)) :=
+  C13_skip_pattern_generic _ _ (fun _ _ => True) (fun _ _ _ => ⟨rfl, trivial⟩) (fun _ _ _ => trivial) p0 trivial [] ops
+
+/-- skip_text_row leaves the stream exactly where read_text_row of the same number of samples leaves it -/
+theorem C13_pnm_skip_text_row_eq_read (n : Nat) (bs : Bytes) : pnmSkipTextRow n bs = (pnmTextRow n bs).2 := by
+  induction n generalizing bs with
+  | zero => rfl
+  | succ n ih =>
+    simp only [pnmSkipTextRow, pnmTextRow]
+    cases h : pnmNextTok bs with
+    | none => rfl
+    | some vr => obtain ⟨v, rest⟩ := vr; simp only []; exact ih rest
+
+private theorem pnmTextAfter_succ (sl k : Nat) (bs : Bytes) : pnmTextAfter sl (k + 1) bs = (pnmTextRow sl (pnmTextAfter sl k bs)).2 := by
+  induction k generalizing bs with
+  | zero => rfl
+  | succ k ih => rw [pnmTextAfter, ih]; rfl
+
+/-- pnm ascii rows (P1 / P2 / P3): any pattern yields, at every dereference, the row a plain walk (every row dereferenced once) reads at
+    that position: `read_text_row` applied to the stream after `pos` rows -/
+theorem C13_skip_pattern_pnm_text (maxv sl : Nat) (data : Bytes) (ops : List ItOp) :
+    itRun (pnmTextScanReader maxv sl) (ItState.init [] data) ops
+      = (derefPositions 0 ops).map (fun p => (p, ((pnmTextRow sl (pnmTextAfter sl p data)).1).map (pnmTextSample maxv))) := by
+  apply C13_skip_pattern_generic _ _ (fun pos s => s = pnmTextAfter sl pos data)
+  · intro pos s hs
+    subst hs
+    exact ⟨rfl, by simp only [pnmTextScanReader, pnmTextAfter_succ]⟩
+  · intro pos s hs
+    subst hs
+    simp only [pnmTextScanReader, pnmTextAfter_succ, C13_pnm_skip_text_row_eq_read]
+  · rfl
+
+/-- a reader whose skip passes over another number of samples than a row holds does NOT have the property: one sample per pixel on a
+    colour row (3 samples per pixel) returns shifted data for the row after a skipped one -/
+theorem C13_skip_text_row_width_witness :
+    let data : Bytes := [49, 32, 50, 32, 51, 10, 52, 32, 53, 32, 54, 10]      -- "1 2 3\n4 5 6\n": a 1x2 P3 body
+    let bad : ScanReader Bytes Bytes := { pnmTextScanReader 255 3 with skip := fun _ s => pnmSkipTextRow 1 s }
+    itRun bad (ItState.init [] data) [.incr, .deref] = [(1, [2, 3, 4])]
+    ∧ itRun (pnmTextScanReader 255 3) (ItState.init [] data) [.incr, .deref] = [(1, [4, 5, 6])] := by
+  decide
+
+example : derefPositions 0 (patternOps ['d', 's', 's', 'D', 's', 'd']) = [0, 3, 3, 5] := by decide
+example : itRun (pnmBinScanReader 2) (ItState.init [] [1, 2, 3, 4, 5, 6]) (patternOps ['s', 'd', 'd']) = [(1, [3, 4]), (2, [5, 6])] := by decide
+
+private theorem pnmNextTok_length {bs : Bytes} {v : Nat} {rest : Bytes} (h : pnmNextTok bs = some (v, rest)) : rest.length < bs.length := by
+  unfold pnmNextTok at h
+  have hd : (bs.dropWhile isWs).length ≤ bs.length := by
+    have := (List.dropWhile_suffix (l := bs) isWs).length_le; exact this
+  cases hc : bs.dropWhile isWs with
+  | nil => rw [hc] at h; simp at h
+  | cons c r =>
+    rw [hc] at h hd
+    simp only at h
+    split at h
+    · rename_i hdg
+      simp only [Option.some.injEq, Prod.mk.injEq] at h
+      obtain ⟨_, h2⟩ := h
+      subst h2
+      have h1 : ((c :: r).dropWhile isDigit).length ≤ r.length := by
+        rw [List.dropWhile_cons_of_pos hdg]
+        exact (List.dropWhile_suffix (l := r) isDigit).length_le
+      simp only [List.length_drop, List.length_cons] at *
+      omega
+    · simp at h
+
+private theorem pnmTokens_step (fuel : Nat) (bs : Bytes) :
+    pnmTokens (fuel + 1) bs = match pnmNextTok bs with
+      | none => []
+      | some (v, rest) => v :: pnmTokens fuel rest := by
+  rw [pnmTokens]
+  unfold pnmNextTok
+  cases bs.dropWhile isWs with
+  | nil => rfl
+  | cons c r => simp only []; split <;> rfl
+
+private theorem pnmTokens_fuel (n : Nat) : ∀ (bs : Bytes) (fuel : Nat), bs.length < n → bs.length < fuel →
+    pnmTokens fuel bs = pnmTokens (bs.length + 1) bs := by
+  induction n with
+  | zero => intro bs fuel h; omega
+  | succ n ih =>
+    intro bs fuel hn hf
+    obtain ⟨f, rfl⟩ : ∃ f, fuel = f + 1 := ⟨fuel - 1, by omega⟩
+    rw [pnmTokens_step, pnmTokens_step]
+    cases h : pnmNextTok bs with
+    | none => rfl
+    | some vr =>
+      obtain ⟨v, rest⟩ := vr
+      have hl := pnmNextTok_length h
+      simp only []
+      rw [ih rest f (by omega) (by omega), ih rest bs.length (by omega) hl]
+
+/-- all numbers of a data stream (the fuel of `pnmTokens` is the data's length) -/
+private def toks (bs : Bytes) : List Nat := pnmTokens (bs.length + 1) bs
+
+private theorem toks_step (bs : Bytes) : toks bs = match pnmNextTok bs with
+    | none => []
+    | some (v, rest) => v :: toks rest := by
+  unfold toks
+  rw [pnmTokens_step]
+  cases h : pnmNextTok bs with
+  | none => rfl
+  | some vr =>
+    obtain ⟨v, rest⟩ := vr
+    simp only []
+    rw [pnmTokens_fuel (bs.length + 1) rest bs.length (by have := pnmNextTok_length h; omega) (pnmNextTok_length h)]
+
+private theorem toks_nil : toks [] = [] := by rw [toks_step]; rfl
+
+private theorem pnmTextRow_toks (n : Nat) : ∀ bs : Bytes, (pnmTextRow n bs).1 = (toks bs).take n ∧ toks (pnmTextRow n bs).2 = (toks bs).drop n := by
+  induction n with
+  | zero => intro bs; simp [pnmTextRow]
+  | succ n ih =>
+    intro bs
+    rw [toks_step bs]
+    simp only [pnmTextRow]
+    cases h : pnmNextTok bs with
+    | none => simp [toks_nil]
+    | some vr =>
+      obtain ⟨v, rest⟩ := vr
+      obtain ⟨i1, i2⟩ := ih rest
+      simp only [List.take_succ_cons, List.drop_succ_cons]
+      exact ⟨by rw [i1], i2⟩
+
+private theorem pnmTextAfter_toks (sl p : Nat) : ∀ data : Bytes, toks (pnmTextAfter sl p data) = (toks data).drop (p * sl) := by
+  induction p with
+  | zero => intro data; simp [pnmTextAfter]
+  | succ p ih =>
+    intro data
+    rw [pnmTextAfter, ih, (pnmTextRow_toks sl data).2, List.drop_drop]
+    congr 1
+    rw [Nat.add_mul, Nat.one_mul]; omega
+
+/-- the row buffer read_text_row fills at the stream position after `p` rows = samples [p*sl, p*sl + sl) of the data, as
+    `reader::read_text_data` (read_image) sees them -/
+theorem C13_pnm_text_row_samples (maxv sl p : Nat) (data : Bytes) :
+    ((pnmTextRow sl (pnmTextAfter sl p data)).1).map (pnmTextSample maxv)
+      = readAt ((pnmTokens (data.length + 1) data).map (pnmTextSample maxv)) (p * sl) sl := by
+  rw [(pnmTextRow_toks sl _).1, pnmTextAfter_toks]
+  simp only [readAt, toks, List.map_take, List.map_drop]
+
+/-- pnm ascii rows (P1 / P2 / P3), any pattern: the row handed out at position `p` is samples [p*sl, p*sl + sl) of the data -- the samples
+    read_image decodes its row `p` from (`C13_scanline_pnm_text`) -/
+theorem C13_skip_pattern_pnm_text_rows (maxv sl : Nat) (data : Bytes) (ops : List ItOp) :
+    itRun (pnmTextScanReader maxv sl) (ItState.init [] data) ops
+      = (derefPositions 0 ops).map (fun p => (p, readAt ((pnmTokens (data.length + 1) data).map (pnmTextSample maxv)) (p * sl) sl)) := by
+  rw [C13_skip_pattern_pnm_text]
+  simp only [C13_pnm_text_row_samples]
+
+/-- read_image of an ascii pnm: row `pos` is decoded from samples [pos*sl, pos*sl + sl) -/
+theorem C13_scanline_pnm_text {α} (f : PixFmt α) (data : Bytes) (info : PnmInfo) (pos : Nat) (hp : pos < info.height) :
+    (pnmReadText f data info Settings.full).rows[pos]? = some (decRow f info.width
+      (readAt ((pnmTokens (data.length + 1) data).map (pnmTextSample info.maxValue)) (pos * pnmScanline info.type info.width) (pnmScanline info.type info.width))) := by
+  simp only [pnmReadText, readRows, readAt, Settings.full, Settings.dimX, Settings.dimY, if_true, Nat.add_zero]
+  rw [List.getElem?_map, List.getElem?_range hp]
+  simp only [Option.map_some, slice_decRow]
+
+example : (pnmReadText rgb8 [49, 32, 50, 32, 51, 10, 52, 32, 53, 32, 54, 10] ⟨3, 1, 2, 255⟩ Settings.full).rows = [[⟨1, 2, 3⟩], [⟨4, 5, 6⟩]] := by decide
+
 /-! ### read_image_info reports the dimensions of the image read_image produces -/
 
 theorem C13_info_bmp {α} (f : PixFmt α) (file : Bytes) (img : Img α) (h : decodeBmp f file Settings.full = some img) :
